@@ -228,9 +228,38 @@ def walk_completeness(P: Program, R: Report, rule: str) -> None:
                     continue
                 n += 1
                 assigned = {x.id for s in ast.walk(lp) for x in ast.walk(s) if isinstance(x, ast.Name) and isinstance(x.ctx, ast.Store)}
-                exits = [s for s in ast.walk(lp) if isinstance(s, (ast.Break, ast.Return, ast.Continue))]
-                R.check(not exits, rule, m, exits[0] if exits else lp, f"{m.short}: the downstream walk has no early exit",
-                        f"`{norm(exits[0]) if exits else ''}` inside the walk: descendants behind it keep a stale lineage id", via="loop-shape")
+                assigned -= {x.id for x in ast.walk(lp.target) if isinstance(x, ast.Name)} if isinstance(lp, ast.For) else set()
+                from ..cfg import build_cfg
+
+                cfg = build_cfg(m.node)
+
+                def stmt_of(call):
+                    """CFG node of the statement containing `call` (or of the enclosing `if` header for guarded writes)"""
+                    best = None
+                    for nn in cfg.stmts():
+                        if nn.ast is not None and nn.kind in ("stmt",) and any(x is call for x in ast.walk(nn.ast)):
+                            best = nn.id
+                    return best
+
+                def gate_of(call):
+                    """outermost loop-invariant `if` around the call inside the loop (its test node), else the statement"""
+                    node = stmt_of(call)
+                    for nn in cfg.stmts():
+                        if nn.kind == "test" and isinstance(nn.ast, ast.If) and any(x is call for x in ast.walk(nn.ast)) and any(nn.ast is y for y in ast.walk(lp)):
+                            names = {x.id for x in ast.walk(nn.ast.test) if isinstance(x, ast.Name)}
+                            if not names & assigned:
+                                return nn.id
+                    return node
+
+                hard = [s for s in ast.walk(lp) if isinstance(s, (ast.Break, ast.Return))]
+                R.check(not hard, rule, m, hard[0] if hard else lp, f"{m.short}: the downstream walk never stops early (no break / return)",
+                        f"`{norm(hard[0]) if hard else ''}` inside the walk: descendants behind it keep a stale lineage id", via="loop-shape")
+                for cont in [s for s in ast.walk(lp) if isinstance(s, ast.Continue)]:
+                    cn = cfg.node_of(cont)
+                    need = [gate_of(x) for x in writes + enq]
+                    ok = cn is not None and all(g is not None and cfg.dominates(g, cn) for g in need)
+                    R.check(ok, rule, m, cont, f"{m.short}: `continue` is reached only after the lineage write and the enqueueing of successors",
+                            "a node can be skipped before its lineage is written or its successors are enqueued", via="cfg-dominance")
 
                 def guards(target):
                     out = []
